@@ -250,7 +250,7 @@ func c15Judge(m c15Method, c c15Case, res c15Result) (sig, msg string) {
 
 func TestC15(t *testing.T) {
 	rec := ev.New(t, "C15")
-	rec.Rule("rapid-generated (method of the 11 wrapped KV methods, attempts 1..5, script of attempts+1 outcomes over {success(value), retryable error, non-retryable error}); retryable errors = every registered retryable chord error and context.DeadlineExceeded, bare or wrapped per call; non-retryable = registered non-retryable chord errors, context.Canceled, arbitrary errors. Oracle: number of underlying calls = min(index of first success/non-retryable + 1, attempts), identical arguments on each re-issue, result = value of the first success or the last error (and no earlier, different error). Non-trivial: at least one re-issue is expected (first outcome retryable and attempts >= 2). Distinct = distinct (method, attempts, script). Concurrency dimension (class shared-wrapper): groups of 4..16 goroutines share ONE wrapper; after a barrier each issues 1500 (thorough 3000) calls back to back, every call with its own context (live: background / cancellable / far deadline; dead: cancelled / expired, 10-50% of the calls) and its own script (PRNG seeded from the shard seed); the same per-call oracle applies to every call whose own context is live (it must reach the node and follow its own script regardless of the contexts of the other callers); calls with a dead context are counted but not judged. Non-trivial there: the own context of the call is live.")
+	rec.Rule("rapid-generated (method of the 11 wrapped KV methods, attempts 1..5, script of attempts+1 outcomes over {success(value), retryable error, non-retryable error}); retryable errors = every registered retryable chord error and context.DeadlineExceeded, bare or wrapped per call; non-retryable = registered non-retryable chord errors, context.Canceled, arbitrary errors. Oracle: number of underlying calls = min(index of first success/non-retryable + 1, attempts), identical arguments on each re-issue, result = value of the first success or the last error (and no earlier, different error). Non-trivial: at least one re-issue is expected (first outcome retryable and attempts >= 2). Distinct = distinct (method, attempts, script). Concurrency dimension (class shared-wrapper): groups of 4..16 goroutines share ONE wrapper; after a barrier each issues 1500 (thorough 3000) calls back to back, every call with its own context (live: background / cancellable / far deadline; dead: cancelled / expired, 10-50% of the calls) and its own script (PRNG seeded from the shard seed); the same per-call oracle applies to every call whose own context is live (it must reach the node and follow its own script regardless of the contexts of the other callers); calls with a dead context are counted but not judged. Non-trivial there: the own context of the call is live. Enumerated dimension (class enumerated:retryable-then-final): every method x every retryable first error x (no / every retryable second error) x every final outcome (success, each non-retryable error), bare and wrapped, once each, same oracle.")
 	rec.Assume("retry interval 1 microsecond; the library's random jitter (<= 100 ms per retry) is irrelevant to the oracle; cases of a batch run concurrently",
 		"attempts = 0 (retry-go: retry forever) is outside the domain")
 
@@ -278,6 +278,74 @@ func TestC15(t *testing.T) {
 
 	// concurrency dimension: many goroutines, one wrapper, different contexts
 	c15Concurrent(t, rec, retryable, fatal, ev.Pick(4, 12), ev.Pick(1500, 3000))
+
+	// exhaustive dimension: a wrapper that treated one particular (earlier error, later outcome)
+	// combination of one method specially is a 1-in-thousands case for the random scripts below,
+	// so every method x every retryable error x (every retryable error | nothing) x every final
+	// outcome (success, each non-retryable error) is enumerated once, wrapped and bare.
+	{
+		type outcome struct {
+			kind int
+			err  error
+		}
+		finals := []outcome{{c15OK, nil}}
+		for _, e := range fatal {
+			finals = append(finals, outcome{c15Fatal, e})
+		}
+		mids := []outcome{{-1, nil}}
+		for _, e := range retryable {
+			mids = append(mids, outcome{c15Retryable, e})
+		}
+		mk := func(o outcome, i int, wrap bool) c15Step {
+			st := c15Step{Kind: o.kind, err: o.err}
+			if st.err != nil && wrap {
+				st.err = fmt.Errorf("call %d: %w", i, st.err)
+			}
+			if st.err != nil {
+				st.Err = st.err.Error()
+			}
+			return st
+		}
+		var cases []c15Case
+		var cms []c15Method
+		for _, m := range methods {
+			for _, first := range retryable {
+				for _, mid := range mids {
+					for _, fin := range finals {
+						for _, wrap := range []bool{false, true} {
+							script := []c15Step{mk(outcome{c15Retryable, first}, 0, wrap)}
+							if mid.kind >= 0 {
+								script = append(script, mk(mid, 1, wrap))
+							}
+							script = append(script, mk(fin, len(script), wrap))
+							script = append(script, c15Step{Kind: c15OK})
+							cases = append(cases, c15Case{Method: m.name, Attempts: uint(len(script) - 1), Script: script})
+							cms = append(cms, m)
+						}
+					}
+				}
+			}
+		}
+		results := make([]c15Result, len(cases))
+		var wg sync.WaitGroup
+		sem := make(chan struct{}, 64)
+		for b := range cases {
+			wg.Add(1)
+			sem <- struct{}{}
+			go func(b int) {
+				defer func() { <-sem; wg.Done() }()
+				results[b] = c15Run(cms[b], cases[b])
+			}(b)
+		}
+		wg.Wait()
+		for b, c := range cases {
+			rec.Case(true, c.key(), func() any { return c }, "enumerated:retryable-then-final", "method:"+c.Method)
+			if sig, msg := c15Judge(cms[b], c, results[b]); sig != "" {
+				rec.Fail(t, sig, map[string]any{"case": c, "observed_calls": results[b].calls, "returned_error": fmt.Sprint(results[b].err), "returned_value": fmt.Sprint(results[b].val)},
+					"%s attempts=%d script=%s: %s", c.Method, c.Attempts, c.key(), msg)
+			}
+		}
+	}
 
 	batch := ev.Pick(40, 32)
 	ev.RapidCheck(t, 10, 600, func(rt *rapid.T) {
